@@ -453,8 +453,14 @@ def random_world(rnd):
 def random_history(rnd):
     """what happened in the output directory before the run that is compared"""
     r = rnd.random()
-    if r < 0.35:
+    if r < 0.30:
         return {"kind": "clean"}
+    if r < 0.38:
+        k = rnd.randint(1, 60)
+        return {"kind": "other_program", "keep_mtime": rnd.random() < 0.6, "source": rnd.choice([
+            "main :: () -> i32 { %d }\n" % k,
+            "tbl :: comptime { i64.[%d, %d, %d, 4, 5, 6, 7, 8] };\nmain :: () -> i32 { i32.(tbl[3]) }\n" % (k, k + 1, k + 2),
+            "main :: () -> i32 { undefined_thing_%d }\n" % k])}
     if r < 0.5:
         return {"kind": "stale_larger_object", "size": rnd.choice([70_000, 300_000]),
                 "fill": rnd.randint(1, 255)}
@@ -549,6 +555,23 @@ def apply_history(bx, entry, hist):
             fired["history:enospc"] = 1
         else:
             fired["history:enospc_not_reached"] = 1
+        return fired
+    if kind == "other_program":
+        # an earlier build of *other sources* under the same name: afterwards the real sources
+        # are put back (with their original modification times, as a version-control checkout
+        # or `cp -p` would) and built - nothing of the other program may survive
+        entry_path = os.path.join(bx.proj, entry)
+        with open(entry_path, "rb") as f:
+            real = f.read()
+        st = os.stat(entry_path)
+        with open(entry_path, "w") as f:
+            f.write(hist["source"])
+        r = compile_once(bx, entry, boxmod.REFERENCE_WORLD)
+        with open(entry_path, "wb") as f:
+            f.write(real)
+        if hist.get("keep_mtime"):
+            os.utime(entry_path, ns=(st.st_atime_ns, st.st_mtime_ns))
+        fired["history:other_program_built" if r["obj"] is not None else "history:other_program_rejected"] = 1
         return fired
     if kind == "repeated":
         for _ in range(hist["times"]):
